@@ -28,7 +28,8 @@ Definition wp_inv (s : st) : Prop :=
   | WLd2 _ k _ => covers s k (flushed s)
   | WCas _ k v _ => covers s k (flushed s) /\ v < k
   | WDrain0 => is_shut s = true
-  | WDrainLd _ _ | WDone => is_shut s = true /\ forall l, latch s = Some l -> l <= nexported s
+  | WDrainLd p n => is_shut s = true /\ (forall l, latch s = Some l -> l <= nexported s) /\ (p = None \/ n = None)
+  | WDone => is_shut s = true /\ forall l, latch s = Some l -> l <= nexported s
   end.
 
 Record InvA (s : st) : Prop := {
